@@ -25,9 +25,9 @@ def rows(df):
     return [tuple(float(df.iloc[i][c]) for c in cols) for i in range(len(df))]
 
 
-def history(engine, length):
+def history(engine, length, gz=False):
     with tmpdir() as d, quiet():
-        name = os.path.join(d, "table." + ("pkl" if engine == "pickle" else "csv"))
+        name = os.path.join(d, "table." + ("pkl" if engine == "pickle" else "csv") + (".gz" if gz else ""))     # pandas infers compression from the name
         stored = rnd.choice([None, None, 1])     # constants stored on the runner; those given with a sowing take precedence
         mk = lambda: xyz.Sampler(xyz.Runner(fn, var_names=["x", "y"], constants=({"c": stored} if stored else None)), data_name=name,
                                  default_combos=CHOICES, engine=engine)
@@ -130,4 +130,12 @@ for engine in ("pickle", "csv"):
         pr, hist = history(engine, rnd.randint(2, 6))
         if pr:
             finish(True, input=dict(engine=engine, history=hist), observed=pr, tried=tried)
+for engine in ("pickle", "csv"):
+    tried += 1
+    try:
+        pr, hist = history(engine, 3, gz=True)
+    except Exception as e:
+        pr, hist = [f"{type(e).__name__}: {e}"], []
+    if pr:
+        finish(True, input=dict(engine=engine, file_name="table.<ext>.gz", history=hist), observed=pr, tried=tried)
 finish(False, tried=tried)
